@@ -104,3 +104,16 @@ package header
 //@ ensures[C04] r2 == nil ==> forall(j, 0, len(r0.Signals), 1 <= r0.Signals[j] && r0.Signals[j] <= 32 && bitof(r0.SignalMask, 32 - r0.Signals[j]) == 1) && forall(j, 0, len(r0.Signals) - 1, r0.Signals[j] < r0.Signals[j+1])
 //@ ensures[C04] r2 == nil ==> forall(k, 0, len(r0.Cells), RowOK(contents(r0.Cells[k]), offof(r0.Cells[k]), r0.CellMask, len(r0.Satellites)*len(r0.Signals) - 1 - k*len(r0.Signals), len(r0.Signals)))
 //@ ensures[C04] r2 == nil ==> r0.NumSignalCells == cnthi(r0.CellMask, len(r0.Satellites)*len(r0.Signals), len(r0.Satellites)*len(r0.Signals))
+
+//@ func (*Header).String
+//@ requires[C07] header != nil
+//@ arith wrap
+//@ loop 1
+//@ invariant s <= 60
+//@ decreases s + 4
+//@ loop 2
+//@ invariant s <= 28
+//@ decreases s + 4
+
+//@ func (*Header).GetTitle
+//@ requires[C07] header != nil
